@@ -481,6 +481,16 @@ Theorem guess_regularizing_exec_agrees :
 Proof. intros KF xs. split; [apply gr_mean_x_eq|apply gr_scale_x_eq]. Qed.
 Print Assumptions guess_regularizing_exec_agrees.
 
+(* An EMPTY component (population exactly 0): the fitted mean is the prior mean and the fitted
+   covariance the prior term 1/prior_scale / (prior_dof + dim + 2), whatever the data - so it
+   follows translations / rescalings of the data exactly as the prior does. *)
+Theorem mstep_empty_component :
+  forall small tiny asq m0 s0 dof0 dim n xs, ~ small == 0 ->
+  ms_mean small m0 (repeat 0 n) xs == m0 /\
+  ms_cov small tiny asq s0 dof0 dim (repeat 0 n) xs == (1 / s0) / (dof0 + dim + 2).
+Proof. exact ms_empty_component. Qed.
+Print Assumptions mstep_empty_component.
+
 (* ===================================================================== 7. BIC parameter count *)
 (* the expressions translated from GMM.bic count exactly the free parameters,
    for every k and every dimension, for both precision types *)
